@@ -12,7 +12,9 @@ Definition zint (a b : Z) : list Z := map (fun d : nat => a + Z.of_nat d) (seq 0
 Definition lo (s : option Z) : Z := Z.max 0 (match s with Some s => s | None => 0 end).
 Definition hi (e : option Z) (len : Z) : Z := match e with Some e => Z.min e (len - 1) | None => len - 1 end.
 
-Definition spec_get (g : gridT) (q : getter) : sres :=
+(* [pad] = true: the documented reading of get_cells(area) ("the exact number of cells of the area", clipped to the table
+   width like get_values); [pad] = false: the reading the code implements (each row gives the cells of the area it STORES) *)
+Definition spec_get (pad : bool) (g : gridT) (q : getter) : sres :=
   let h := gheight g in let w := ncols g in
   let ny y := norm_coord y h in let nx x := norm_coord x w in
   let gc x y := nth (Z.to_nat x) (g_row y g) empty_cell in
@@ -21,7 +23,7 @@ Definition spec_get (g : gridT) (q : getter) : sres :=
   | GGetCell x y _ _ => SCells [[(nx x, ny y, gc (nx x) (ny y))]]
   | GGetRow y _ => SRows [(ny y, g_row (ny y) g)]
   | GGetCells (Some (x, y, z, e)) =>
-      SCells (map (fun yy => map (fun xx => (xx, yy, gc xx yy)) (zint (nx x) (Z.min (nx z) (w - 1)))) (zint (ny y) (Z.min (ny e) (h - 1))))
+      SCells (map (fun yy => map (fun xx => (xx, yy, gc xx yy)) (zint (nx x) (Z.min (nx z) (if pad then w - 1 else Z.min (w - 1) (rlen yy - 1))))) (zint (ny y) (Z.min (ny e) (h - 1))))
   | GGetCells None | GCellsP =>
       SCells (map (fun yy => map (fun xx => (xx, yy, gc xx yy)) (zint 0 (rlen yy - 1))) (zint 0 (h - 1)))
   | GGetRows (Some (y, e)) => SRows (map (fun yy => (yy, g_row yy g)) (zint (ny y) (Z.min (ny e) (h - 1))))
@@ -57,6 +59,13 @@ Definition meets (copy exp : bool) (r : gres) (s : sres) : bool :=
   | GColsR l, SCols l' => forall2b (kobj_meets copy exp) l l'
   | _, _ => false end.
 
-(* the statement of C08 for one getter on one table *)
+(* the statement of C08 for one getter on one table: the code as it is against the documented reading ... *)
 Definition C08_holds (t : tstate) (q : getter) : Prop :=
-  meets (promises_copy q) (expands q) (m_get false t q) (spec_get (abs_t t) q) = true.
+  meets (promises_copy q) (expands q) (m_get false false t q) (spec_get true (abs_t t) q) = true.
+(* ... and against the reading it implements for get_cells(area) (cells a row does not store are not returned) *)
+Definition C08_holds_as_stored (t : tstate) (q : getter) : Prop :=
+  meets (promises_copy q) (expands q) (m_get false false t q) (spec_get false (abs_t t) q) = true.
+(* ... and the candidate repair of F30 against the documented reading *)
+Definition C08_holds_padded (t : tstate) (q : getter) : Prop :=
+  meets (promises_copy q) (expands q) (m_get false true t q) (spec_get true (abs_t t) q) = true.
+Definition is_area_get_cells (q : getter) : bool := match q with GGetCells (Some _) => true | _ => false end.
